@@ -39,19 +39,34 @@ def corr_clauses(opt):
 def build_requests(reg, common):
     OPT_COMMON = {c: "any" for c in CORR}
     reg.shape("PublishOptions", cls=T + ":PublishOptions", fields=dict(
-        OPT_COMMON, acknowledge="opt:bool", exclude_me="opt:bool", exclude="any", exclude_authid="any",
-        exclude_authrole="any", eligible="any", eligible_authid="any", eligible_authrole="any", retain="opt:bool",
-        forward_for="any", transaction_hash="opt:str"))
+        OPT_COMMON, acknowledge="opt:bool", exclude_me="opt:bool", exclude="opt:int|list:int",
+        exclude_authid="opt:str|list:str", exclude_authrole="opt:str|list:str", eligible="opt:int|list:int",
+        eligible_authid="opt:str|list:str", eligible_authrole="opt:str|list:str", retain="opt:bool",
+        forward_for="opt:list:int", transaction_hash="opt:str"))
     reg.shape("CallOptions", cls=T + ":CallOptions", fields=dict(
-        OPT_COMMON, on_progress="any", timeout="opt:int", transaction_hash="opt:str", caller="opt:int",
-        caller_authid="opt:str", caller_authrole="opt:str", forward_for="any", details="any"))
+        OPT_COMMON, on_progress="opt:int", timeout="opt:int", transaction_hash="opt:str", caller="opt:int",
+        caller_authid="opt:str", caller_authrole="opt:str", forward_for="opt:int", details="any"))
     reg.shape("SubscribeOptions", cls=T + ":SubscribeOptions", fields=dict(
-        OPT_COMMON, match="opt:str", details="any", details_arg="opt:str", get_retained="opt:bool", forward_for="any"))
+        OPT_COMMON, match="opt:str", details="any", details_arg="opt:str", get_retained="opt:bool", forward_for="opt:list:int"))
     reg.shape("RegisterOptions", cls=T + ":RegisterOptions", fields=dict(
         OPT_COMMON, match="opt:str", invoke="opt:str", concurrency="opt:int", force_reregister="opt:bool",
-        forward_for="any", details="any", details_arg="opt:str"))
+        forward_for="opt:list:int", details="any", details_arg="opt:str"))
+    reg.shapes["Ghost"].fields.update({"options": "any"})
+    # call options are kept in the call request (the progress handler is looked up there): a record like the request
+    reg.record_class(T + ":CallOptions", "CallOptions")
+    reg.shapes["CallRequest"].fields["options"] = "opt:sym:CallOptions"
+    # handlers / endpoints: records; the callable is an opaque identity
+    reg.shapes["HandlerRec"].fields.update({"fn": "int", "obj": "opt:int", "details_arg": "opt:str"})
+    reg.record_class("autobahn.wamp.request:Handler", "HandlerRec")
+    reg.record_class("autobahn.wamp.request:Endpoint", "HandlerRec")
     for c in ("PublishOptions", "CallOptions", "SubscribeOptions", "RegisterOptions"):
         reg.mark_inline(T + ":%s.message_attr" % c)
+
+    # validators: proved against the URI grammar under C08; here only "returns or raises InvalidUriError, no effect"
+    reg.contract("autobahn.wamp.message:check_or_raise_uri",
+                 params={"value": "any", "message": "any", "strict": "bool", "allow_empty_components": "bool",
+                         "allow_last_empty": "bool", "allow_none": "bool"},
+                 returns="any", raises={"InvalidUriError": "True"}, verify=False, props=["C08"], spec_module="specs.wamp")
 
     # ------------------------------------------------------------------ _unregister
     reg.contract(
@@ -79,3 +94,146 @@ def build_requests(reg, common):
                         "PayloadExceededError": ["ghost.n_sent == old(ghost.n_sent)", table_unchanged("_unregister_reqs")],
                         "TransportLost": ["ghost.n_sent == old(ghost.n_sent)", table_unchanged("_unregister_reqs")]},
         **common)
+
+    # ------------------------------------------------------------------ publish
+    PUB_WIRE = ["acknowledge", "exclude_me", "retain", "transaction_hash", "forward_for"]
+    PUB_LISTS = ["exclude", "exclude_authid", "exclude_authrole", "eligible", "eligible_authid", "eligible_authrole"]
+    ACK = "(options is not None and options.acknowledge is True)"
+    reg.contract(
+        SESS + ".publish", name=SESS + ".publish[request]",
+        params={"self": "obj:Session", "topic": "str", "args": "any", "kwargs": "cdict:options=opt:obj:PublishOptions"},
+        returns="any",
+        # (a kwargs dict without the key behaves like options=None: kwargs.pop("options", None))
+        ghost_entry=["ghost.options = kwargs['options']"],
+        requires=["self._transport is not None", GEN, pending_le_next("_publish_reqs")],
+        modifies=["self._publish_reqs", "PublishRequest.*", "Request.*", "Fut.*", "ghost.n_sent", "ghost.last_sent",
+                  "self._request_id_gen._next", "kwargs", "ghost.options"],
+        ensures=[
+            "ghost.n_sent == old(ghost.n_sent) + 1",
+            # exactly one PUBLISH with the fresh request id and faithfully the given topic, arguments and options
+            "isinstance(ghost.last_sent, Publish) and ghost.last_sent.request == %s and ghost.last_sent.topic == topic" % NEW,
+            "ghost.last_sent.args is args and ghost.last_sent.kwargs is kwargs and 'options' not in kwargs",
+        ] + ["ghost.last_sent.%s is (ghost.options.%s if ghost.options is not None else None)" % (f, f) for f in PUB_WIRE]
+          + ["implies(ghost.options is None or ghost.options.%s is None, ghost.last_sent.%s is None)" % (f, f) for f in PUB_LISTS]
+          # a list of receivers is passed on as it is (also when empty), a single value as a one-element list
+          + ["implies(ghost.options is not None and isinstance(ghost.options.%s, list), ghost.last_sent.%s is ghost.options.%s)"
+             % (f, f, f) for f in PUB_LISTS]
+          + ["implies(ghost.options is not None and ghost.options.%s is not None and not isinstance(ghost.options.%s, list), "
+             "len(ghost.last_sent.%s) == 1 and ghost.last_sent.%s[0] == ghost.options.%s)" % (f, f, f, f, f) for f in PUB_LISTS]
+          + corr_clauses("ghost.options") + [
+            "old(%s not in self._publish_reqs)" % "self._request_id_gen._next + 1",
+            # only acknowledged publications expect a reply: recorded before the message is handed to the transport
+            "implies(ghost.options is not None and ghost.options.acknowledge is True, %s in self._publish_reqs and "
+            "self._publish_reqs[%s].request_id == %s and result is self._publish_reqs[%s].on_reply and "
+            "not fut_done(result.addr) and not allocated_before(result.addr))" % (NEW, NEW, NEW, NEW),
+            "implies(not (ghost.options is not None and ghost.options.acknowledge is True), result is None and "
+            "%s not in self._publish_reqs)" % NEW,
+            pending_le_next("_publish_reqs"),
+        ] + others_kept("_publish_reqs"),
+        raises=dict(SEND_RAISES, AssertionError="True", InvalidUriError="True", Exception="True"),
+        raises_ensures={"*": ["ghost.n_sent == old(ghost.n_sent)", table_unchanged("_publish_reqs")]},
+        **common)
+
+    # ------------------------------------------------------------------ call
+    CALL_WIRE = ["timeout", "transaction_hash", "forward_for", "caller", "caller_authid", "caller_authrole"]
+    reg.external("txaio.create_future", _create_future_with_canceller)
+    reg.contract(
+        SESS + ".call", name=SESS + ".call[request]",
+        params={"self": "obj:Session", "procedure": "str", "args": "any", "kwargs": "cdict:options=opt:sym:CallOptions"},
+        returns="any", ghost_entry=["ghost.options = kwargs['options']"],
+        requires=["self._transport is not None", GEN, pending_le_next("_call_reqs")],
+        modifies=["self._call_reqs", "CallRequest.*", "Request.*", "Fut.*", "ghost.n_sent", "ghost.last_sent",
+                  "self._request_id_gen._next", "kwargs", "ghost.options"],
+        ensures=[
+            "ghost.n_sent == old(ghost.n_sent) + 1",
+            "isinstance(ghost.last_sent, Call) and ghost.last_sent.request == %s and ghost.last_sent.procedure == procedure" % NEW,
+            "ghost.last_sent.args is args and ghost.last_sent.kwargs is kwargs and 'options' not in kwargs",
+        ] + ["ghost.last_sent.%s is (ghost.options.%s if ghost.options is not None else None)" % (f, f) for f in CALL_WIRE]
+          + [
+            # progressive results are requested exactly when the caller gave a progress handler
+            "(ghost.last_sent.receive_progress is True) == (ghost.options is not None and ghost.options.on_progress is not None)",
+            "ghost.last_sent.receive_progress is None or ghost.last_sent.receive_progress is True"]
+          + corr_clauses("ghost.options") + [
+            "old(%s not in self._call_reqs)" % "self._request_id_gen._next + 1",
+            # recorded (with its options: the progress handler is looked up there) before the message is sent
+            "%s in self._call_reqs and self._call_reqs[%s].request_id == %s and result is self._call_reqs[%s].on_reply and "
+            "not fut_done(result.addr) and not allocated_before(result.addr)" % (NEW, NEW, NEW, NEW),
+            "self._call_reqs[%s].options is ghost.options and self._call_reqs[%s].procedure == procedure" % (NEW, NEW),
+            pending_le_next("_call_reqs"),
+        ] + others_kept("_call_reqs"),
+        raises=dict(SEND_RAISES, AssertionError="True", InvalidUriError="True", Exception="True"),
+        raises_ensures={"*": ["ghost.n_sent == old(ghost.n_sent)", table_unchanged("_call_reqs")]},
+        **common)
+
+    # ------------------------------------------------------------------ subscribe / register (single callable)
+    def subreg(api, inner, msgcls, table, rec_uri, rec_handler, optshape, uri_field, wire):
+        T_ = "self." + table
+        pre = ["self._transport is not None", GEN, pending_le_next(table)]
+        mod = [T_, "%s.*" % {"_subscribe_reqs": "SubscribeRequest", "_register_reqs": "RegisterRequest"}[table], "Request.*",
+               "Fut.*", "HandlerRec.*", "ghost.n_sent", "ghost.last_sent", "self._request_id_gen._next"]
+        ens = [
+            "ghost.n_sent == old(ghost.n_sent) + 1",
+            "isinstance(ghost.last_sent, %s) and ghost.last_sent.request == %s" % (msgcls, NEW),
+        ] + ["ghost.last_sent.%s is (options.%s if options is not None else None)" % (f, f) for f in wire] \
+          + corr_clauses("options") + [
+            "old(%s not in %s)" % ("self._request_id_gen._next + 1", T_),
+            "%s in %s and %s[%s].request_id == %s and result is %s[%s].on_reply and not fut_done(result.addr) and "
+            "not allocated_before(result.addr)" % (NEW, T_, T_, NEW, NEW, T_, NEW),
+            # the handler / endpoint the reply will attach, with the details argument the options ask for
+            "%s[%s].%s.fn == fn and %s[%s].%s.details_arg is (options.details_arg if options is not None else None)"
+            % (T_, NEW, rec_handler, T_, NEW, rec_handler),
+            pending_le_next(table),
+        ] + others_kept(table)
+        rz = {"*": ["ghost.n_sent == old(ghost.n_sent)", table_unchanged(table)]}
+        return pre, mod, ens, rz
+
+    pre, mod, ens, rz = subreg("subscribe", "_subscribe", "Subscribe", "_subscribe_reqs", "topic", "handler",
+                               "SubscribeOptions", "topic", ["match", "get_retained", "forward_for"])
+    reg.contract(
+        SESS + ".subscribe/_subscribe", name=SESS + ".subscribe/_subscribe[request]",
+        params={"self": "obj:Session", "obj": "none", "fn": "int", "topic": "str", "options": "opt:obj:SubscribeOptions",
+                "check_types": "const:None"}, returns="any",
+        requires=pre, modifies=mod,
+        ensures=ens + ["ghost.last_sent.topic == topic and self._subscribe_reqs[%s].topic == topic" % NEW],
+        raises=dict(SEND_RAISES, InvalidUriError="True"), raises_ensures=rz, **common)
+    pre, mod, ens, rz = subreg("register", "_register", "Register", "_register_reqs", "procedure", "endpoint",
+                               "RegisterOptions", "procedure", ["match", "invoke", "concurrency", "force_reregister",
+                                                                "forward_for"])
+    reg.contract(
+        SESS + ".register/_register", name=SESS + ".register/_register[request]",
+        params={"self": "obj:Session", "obj": "none", "fn": "int", "procedure": "str", "options": "opt:obj:RegisterOptions",
+                "check_types": "const:None", "prefix": "none"}, returns="any",
+        requires=pre, modifies=mod,
+        ensures=ens + ["ghost.last_sent.procedure == procedure and self._register_reqs[%s].procedure == procedure" % NEW],
+        raises=dict(SEND_RAISES, InvalidUriError="True"), raises_ensures=rz, **common)
+
+    # ------------------------------------------------------------------ _unsubscribe: the request record of the UNSUBSCRIBE
+    L = "self._subscriptions[subscription.id]"
+    reg.contract(
+        SESS + "._unsubscribe", name=SESS + "._unsubscribe[request]",
+        params={"self": "obj:Session", "subscription": "sym:Subscription"}, returns="any",
+        requires=["self._transport is not None", GEN, pending_le_next("_unsubscribe_reqs")],
+        modifies=["self._subscriptions", "Subscription.active", "self._unsubscribe_reqs", "UnsubscribeRequest.*", "Request.*",
+                  "Fut.*", "ghost.n_sent", "ghost.last_sent", "self._request_id_gen._next", "ghost.n_completions"],
+        ensures=[
+            "ghost.n_sent == old(ghost.n_sent) + (1 if old(len(%s)) == 1 else 0)" % L,
+            "implies(old(len(%s)) == 1, isinstance(ghost.last_sent, Unsubscribe) and ghost.last_sent.request == %s and "
+            "ghost.last_sent.subscription == subscription.id and %s in self._unsubscribe_reqs and "
+            "self._unsubscribe_reqs[%s].request_id == %s and self._unsubscribe_reqs[%s].subscription_id == subscription.id "
+            "and result is self._unsubscribe_reqs[%s].on_reply and not fut_done(result.addr) and "
+            "not allocated_before(result.addr))" % (L, NEW, NEW, NEW, NEW, NEW, NEW),
+            "implies(old(len(%s)) == 1, old(%s not in self._unsubscribe_reqs))" % (L, "self._request_id_gen._next + 1"),
+            # handlers remain: no request is issued, no id is consumed
+            "implies(old(len(%s)) != 1, %s and self._request_id_gen._next == old(self._request_id_gen._next))"
+            % (L, table_unchanged("_unsubscribe_reqs")),
+            pending_le_next("_unsubscribe_reqs"),
+        ] + others_kept("_unsubscribe_reqs"),
+        raises=dict(SEND_RAISES, AssertionError="True"),
+        raises_ensures={"*": ["ghost.n_sent == old(ghost.n_sent)", table_unchanged("_unsubscribe_reqs")]},
+        **common)
+
+
+def _create_future_with_canceller(ex, state, args, kwargs, sv):
+    """txaio.create_future(canceller=...): the canceller is only stored by txaio (called on cancel, outside this unit)"""
+    from . import wamp_common as W
+    return W.ext_create_future(ex, state, [], {}, None)
